@@ -233,7 +233,7 @@ func main() {
 		}
 	}
 	unmute()
-	prefetchChildren(jobs, 8)
+	prefetchChildren(jobs, 8, start.Add(budget/2))
 	prefetchSeconds := time.Since(start).Seconds()
 	skipped := 0
 	classTime := map[string]float64{}
